@@ -27,7 +27,7 @@ STATE_MEASURE = 'distinct (exported path set, query kind, queried path) at proce
 PROBES = ['sibling-prefix-both-exported', 'introspect-intermediate-path', 'introspect-fails',
           'gmo-with-descendants', 'gmo-root', 'query-in-flight-across-export',
           'query-in-flight-across-unexport', 'call-to-unexported', 'unexport-then-reexport', 'same-instance-reexported', 'property-assigned-after-export',
-          'export-over-exported-path', 'export-call-raised', 'unexport-of-unexported-path', 'failed-export-fate-observed',
+          'export-over-exported-path', 'export-call-raised', 'unexport-of-unexported-path', 'failed-export-fate-observed', 'failed-export-over-exported-path',
           'gmo-sibling-prefix-case']
 COMPONENTS = {
     'real': ['txdbus.objects.DBusObjectHandler (exportObject, unexportObject, getManagedObjects, '
@@ -116,7 +116,7 @@ def scenario(ctx):
 
     def op_assign():
         # a property of an exported object changes: GetManagedObjects must show the new value
-        cands = [(p, k) for p in sorted(E) for k in sorted(E[p]['vals'])]
+        cands = [(p, k) for p in sorted(E) if p not in uncertain for k in sorted(E[p]['vals'])]
         if not cands:
             return op_export()
         p, k = cands[ds.choose(len(cands))]
@@ -133,7 +133,7 @@ def scenario(ctx):
         free = [p for p in PATHS if p not in E and p not in uncertain]
         if E and ds.flag(0.12):
             # a different object takes over a path that is still exported
-            free = sorted(E)
+            free = sorted(p for p in E if p not in uncertain)
             sim.probe('export-over-exported-path')
         if not free:
             return op_unexport()
@@ -186,6 +186,11 @@ def scenario(ctx):
         if uncertain or not free or not cands:
             return op_export()
         p = free[ds.choose(len(free))]
+        if E and ds.flag(0.3):
+            # the failing export is for a path another object is serving: afterwards either of
+            # the two serves it - the path does not fall silent
+            p = sorted(E)[ds.choose(len(E))]
+            sim.probe('failed-export-over-exported-path')
         cs, klass = cands[ds.choose(len(cands))]
         vals = {}
 
@@ -235,9 +240,9 @@ def scenario(ctx):
                             'unexportObject(%s), not exported, wrote %r' % (p, [s.describe() for s in sigs]))
 
     def op_unexport():
-        if not E:
+        ps = sorted(p for p in E if p not in uncertain)
+        if not ps:
             return op_export()
-        ps = sorted(E)
         p = ps[ds.choose(len(ps))]
         cs = E[p]['cs']
         new_signals()
@@ -344,7 +349,7 @@ def scenario(ctx):
                         Ea = dict(E)
                         if a:
                             Ea[up] = u['rec']
-                        q['alts'].append((a, expected(q, Ea), frozenset(Ea)))
+                        q['alts'].append((a, expected(q, Ea), frozenset(Ea), Ea[up]['cs'] if up in Ea else None))
                 if q['epoch'] != epoch[0]:
                     sim.probe('query-in-flight-across-' +
                               ('export' if len(E) else 'unexport'))
@@ -365,10 +370,10 @@ def scenario(ctx):
         (up, u), = uncertain.items()
         fits = set()
         first = None
-        for a, exp, Ea in q['alts']:
+        for a, exp, Ea, cs_up in q['alts']:
             q['exp'], q['E'] = exp, Ea
-            if a:
-                cs_at[(q['serial'], up)] = u['rec']['cs']
+            if cs_up is not None:
+                cs_at[(q['serial'], up)] = cs_up
             else:
                 cs_at.pop((q['serial'], up), None)
             try:
